@@ -193,6 +193,10 @@ func argsOf(cmd string) []string {
 		return []string{"format", "--check"}
 	case "format-inplace":
 		return []string{"format", "-i"}
+	case "format-check-inplace":
+		return []string{"format", "--check", "-i"}
+	case "format-check-output":
+		return []string{"format", "-o", "out.txt", "--check"}
 	case "format-output":
 		return []string{"format", "-o", "out.txt"}
 	case "lint":
